@@ -11,14 +11,14 @@ def run(tier):
     q = tier == "quick"
     to = 900 if q else 3000
     conds = []
-    for spec, dq, dt in (("fore", 3, 5), ("pingpong", 3, 5), ("group", 3, 5), ("nest", 3, 4), ("same", 3, 3), ("sliced", 3, 4), ("sliced2", 3, 5)):
+    for spec, dq, dt in (("fore", 3, 5), ("pingpong", 3, 5), ("group", 3, 5), ("nest", 3, 4), ("same", 3, 3), ("shared", 4, 6), ("sliced", 3, 4), ("sliced2", 3, 5)):
         conds.append(Cond("h_forecast.py", "forecasts_match", to, twin="reach" if spec not in ("pingpong", "sliced", "sliced2") else None, path_timeout=to / 2,
                           env={"H_SPEC": spec, "H_DEPTH": str(dq if q else dt)}))
     run.run_conditions(conds, conformance_harnesses=[("h_forecast.py", {"H_SPEC": s}) for s in ("fore", "group")])
     run.encoded = ["PacketForecaster.__init__/predict", "StateGrammarConverter.process", "PacketIterativeParser", "PathFinder.forecast/add_option",
                    "ContinuingNodeVisitor.visit*", "MountingPath", "DerivationTree.append/protocol_msgs", "IterativeParser (prefix mode on the message-level word)"]
     run.extra["source_sha256_16"] = source_fingerprint(FILES)
-    run.bounds = {"protocol specs": "5: option + star + bounded repetition + nesting (the repository's forecaster.fan); alternation inside a star with a two-message "
+    run.bounds = {"protocol specs": "6: two alternatives that begin with the same factored-out non-nullable sub-rule; option + star + bounded repetition + nesting (the repository's forecaster.fan); alternation inside a star with a two-message "
                   "branch; bounded repetition of a two-message group followed by an option; nested bounded repetition of alternatives; the same message type sent by both parties",
                   "histories": "every message history reachable by choosing among the offered options, depth <= 3 (thorough 5)", "MAX_REPETITIONS": 3}
     run.bounds["sliced specs"] = "2 three-party specs, sliced to the fuzzer-controlled party by the real reader (truncate_invisible_packets -> slice_parties); reference = the unsliced IR with the removal rules applied by the harness"
